@@ -56,11 +56,11 @@ Definition mat_mem (keys : list key) : bool := existsb (fun k => k_mat k =? k_ma
 Definition ev_keys (e : event) : list key :=
   match e with
   | ERun _ (FResp keys _) _ => keys
-  | ECrash _ (FResp keys _) _ _ _ _ => keys
+  | ECrash _ (FResp keys _) _ _ _ _ _ => keys
   | _ => []
   end.
 Definition ev_now (e : event) : option Z :=
-  match e with ERun now _ _ => Some now | ECrash now _ _ _ _ _ => Some now | ERestart _ _ => None end.
+  match e with ERun now _ _ => Some now | ECrash now _ _ _ _ _ _ => Some now | ERestart _ _ _ => None end.
 Definition full_at (s : sys) (now : Z) (fe : fetch) (fl : faults) : bool :=
   match fe with
   | FResp keys sigs =>
@@ -70,14 +70,14 @@ Definition full_at (s : sys) (now : Z) (fe : fetch) (fl : faults) : bool :=
 Definition ev_full (s : sys) (e : event) : bool :=
   match e with
   | ERun now fe fl => full_at s now fe fl
-  | ECrash now fe fl _ _ _ => full_at s now fe fl
-  | ERestart _ _ => false
+  | ECrash now fe fl _ _ _ _ => full_at s now fe fl
+  | ERestart _ _ _ => false
   end.
 Definition ev_recorded (s : sys) (e : event) : bool :=
   match e with
   | ERun now fe fl => has_wstate (r_writes (run_of tag s now fe fl))
-  | ECrash now fe fl k _ _ => has_wstate (firstn k (r_writes (run_of tag s now fe fl)))
-  | ERestart _ _ => false
+  | ECrash now fe fl k _ _ _ => has_wstate (firstn k (r_writes (run_of tag s now fe fl)))
+  | ERestart _ _ _ => false
   end.
 
 Record mon := mk_mon { m_streak : option Z; m_prom : bool; m_rec : bool }.
@@ -91,7 +91,7 @@ Definition mon_step (s : sys) (e : event) (M : mon) : mon :=
      else m_streak M)
     (m_prom M || (ev_full s e && present &&
                   match m_streak M with Some t0 => (now - t0 >? hold_add)%Z | None => false end))
-    (m_rec M || match e with ECrash _ _ _ _ c _ => key_mem K c | ERestart c _ => key_mem K c | ERun _ _ _ => false end).
+    (m_rec M || match e with ECrash _ _ _ _ c _ _ => key_mem K c | ERestart c _ _ => key_mem K c | ERun _ _ _ => false end).
 
 Fixpoint monitor (s : sys) (h : list event) (M : mon) : sys * mon :=
   match h with
@@ -396,15 +396,15 @@ Lemma mon_step_run s now fe fl M :
   mon_step s (ERun now fe fl) M = mon_run s now fe fl (has_wstate (r_writes (run_of tag s now fe fl))) false M.
 Proof. unfold mon_step, mon_run. destruct fe; reflexivity. Qed.
 
-Lemma mon_step_crash s now fe fl k c tr M :
-  mon_step s (ECrash now fe fl k c tr) M = mon_run s now fe fl (has_wstate (firstn k (r_writes (run_of tag s now fe fl)))) (key_mem K c) M.
+Lemma mon_step_crash s now fe fl k c tr sr M :
+  mon_step s (ECrash now fe fl k c tr sr) M = mon_run s now fe fl (has_wstate (firstn k (r_writes (run_of tag s now fe fl)))) (key_mem K c) M.
 Proof. unfold mon_step, mon_run. destruct fe; reflexivity. Qed.
 
 Lemma step_inv T s M e :
   Inv T s M -> match ev_now e with Some n => (T <= n)%Z | None => True end ->
   Inv (match ev_now e with Some n => n | None => T end) (step tag s e) (mon_step s e M).
 Proof.
-  intros HI HT. destruct e as [now fe fl|now fe fl k c tr|c tr]; cbn [ev_now] in *.
+  intros HI HT. destruct e as [now fe fl|now fe fl k c tr sr|c tr sr]; cbn [ev_now] in *.
   - rewrite mon_step_run.
     pose proof (run_preserves T s M now fe fl HI HT (length (r_writes (run_of tag s now fe fl))) false) as H.
     cbn zeta in H. rewrite firstn_all in H. destruct H as (A & B & C & D & E).
@@ -445,15 +445,15 @@ End Hist.
 
 (* new_key_needs_30d *)
 Lemma new_key_needs_30d_lemma :
-  forall (tag : key -> N) (K : key) (cfg : list key) (tombs : option tmap) (tr0 : tread) (T0 : Z) (h : list event),
+  forall (tag : key -> N) (K : key) (cfg : list key) (tombs : option tmap) (tr0 : tread) (sr0 : bool) (T0 : Z) (h : list event),
     mono T0 h ->
     let d0 := mk_disk None tombs in                                (* fresh start: no state file *)
-    let s0 := mk_sys (restart_live cfg d0 tr0) cfg d0 in
+    let s0 := mk_sys (restart_live cfg d0 tr0 sr0) cfg d0 in
     let M0 := mk_mon None false (key_mem K cfg) in
     let M := snd (monitor tag K s0 h M0) in
     In K (s_live (exec tag s0 h)) -> m_rec M = true \/ m_prom M = true.
 Proof.
-  intros tag K cfg tombs tr0 T0 h Hm d0 s0 M0 M Hin.
+  intros tag K cfg tombs tr0 sr0 T0 h Hm d0 s0 M0 M Hin.
   assert (H0 : Inv tag K T0 s0 M0).
   { unfold Inv, s0, M0, st_entries. cbn. repeat split; try (intros ? ? []).
     - intros Hc. apply restart_live_sub in Hc. left. apply key_mem_in. exact Hc.
